@@ -1,5 +1,5 @@
 (* Concrete.v — the model instantiated with the Crypto functions, as run by the correspondence check. *)
-From MW Require Export Staking Treasury Crypto.
+From MW Require Export Staking Treasury Crypto Migrate.
 Open Scope string_scope.
 Open Scope N_scope.
 
@@ -21,3 +21,4 @@ Definition c_tinstantiate := tinstantiate api_valid.
 Definition c_texecute := texecute valid_addr api_valid.
 Definition c_tquery := tquery.
 Definition c_render := render.
+Definition c_migrate := migrate valid_addr.
